@@ -20,28 +20,28 @@ META = {
          'every field reaches the hasher / the converted value; protocol-message key+value; variant payload fields and variant tag; phi_f fixed-point projection; signature choice; Display text of the message part keys is injective (one distinct literal per key)',
          'collision freedom of pre-images; JSON/chrono round trips'),
  'C05': ('static analysis: flow-sensitive wire-integer taint (bit-width abstraction) + audited panic inventory over the decoder call closure',
-         'no allocation / raw arithmetic / panicking index on integers decoded from the input in workspace decoders; every other panic-capable site audited',
-         'third-party decoders (ciborium, bincode, serde_json, hex, blst); value round trips'),
+         'no allocation / raw arithmetic / panicking index on integers decoded from the input in workspace decoders; every other panic-capable site audited; no decoded wire type contains itself unless a hand-written Deserialize bounds the nesting (decode depth = stack depth)',
+         'third-party decoders (ciborium, bincode, serde_json, serde_bytes, hex, blst) incl. what they allocate from a length prefix; value round trips'),
  'C07': ('static analysis: MIR must-pass-through + provenance of identity/stake/KES arguments',
          'registration succeeds only after KES (incl. op-cert cold signature), PoP (both halves), duplicate and stake-distribution checks; id from the cold key, stake from the distribution; the verified signer is rebuilt with the registered id; window constant +-1 and clamp to the last period of the Sum<N> KES scheme; leader ordering',
          'KES/Ed25519/BLS soundness; KES period arithmetic'),
  'C09': ('static analysis: MIR must-pass-through + comparison guards + provenance inside the Merkle verifiers',
-         'structural guards and final root comparison of the STM batch path; MMR verdict gates MKProof::verify over the exposed fields; sub-proof / master / linkage checks of MKMapProof; set-proof item containment',
+         'structural guards and final root comparison of the STM batch path; sibling test of the batch path is an equality; MMR verdict gates MKProof::verify over the exposed fields and only for proofs that list every leaf position once (the MMR verifier ignores all but the first leaf of a position); sub-proof / master / linkage checks of MKMapProof; set-proof item containment',
          'absence of forged paths for every tree shape; third-party MMR'),
  'C10': ('static analysis: MIR must-pass-through + who-may-construct + provenance in the client database prover',
-         'VerifiedDigests only after the recomputed root matched the certificate; success requires no missing file (unless allowed), a verified Merkle proof, and the per-file-name digest comparison',
+         'VerifiedDigests only after the recomputed root matched the certificate; success requires no missing file (unless allowed), a verified Merkle proof, and the per-file-name digest comparison; the client digester has no digest cache (every verification hashes the files) and lists every immutable file present',
          'file-system behaviour under every tampering; hash collisions'),
  'C18': ('static analysis: lock-region (lockset / check-then-act) analysis over MIR + ordering + provenance',
-         'generation passed at every give-back; fullness and staleness tests atomic with the push; item tag stored with the resource; lock order; notify after push; refresh order in both provers',
+         'generation passed at every give-back; fullness and staleness tests atomic with the push; item tag stored with the resource; lock order; notify after push; refresh order in both provers and no suspension point between reading the current generation and installing the new one',
          'liveness of waiters beyond notify-follows-push'),
  'C06': ('static analysis: ADT/collection-type facts + ordering field coverage + who-may-construct + provenance',
          'registration collections are ordered sets iterated directly for leaves / slot / lookup; Ord reads exactly the committed fields; leaf encoding covers the leaf; AVK and closed registration built on one path; every node goes through SignerBuilder::new; total stake = checked sum; the signer associates every registered signer with a stake or fails (no dropping); the served Mithril stake distribution is the next-epoch set the signed key commits',
          'injectivity of the commitment (hash); codec round trips'),
  'C08': ('static analysis: who-may-call + argument-role provenance + effect-closure purity',
-         'is_lottery_won has exactly the signer and verifier callers with identical argument roles; the draw hashes message, index and sigma; the decision closure is effect-free; the signer iterates 0..m; stake and total stake are converted losslessly',
+         'is_lottery_won has exactly the signer and verifier callers with identical argument roles; the draw hashes message, index and sigma; the decision closure is effect-free; the signer iterates 0..m; stake and total stake are converted losslessly; a signer exists only for an initializer whose whole (key, stake) entry is registered',
          'the numerical core: exactness of the Taylor comparison, error band, monotonicity, zero-stake / phi_f=1 outcomes'),
  'C11': ('static analysis: who-may-construct + must-pass-through + provenance + format-template injectivity + field coverage',
-         'Verified* values only from verify(); per-set-proof verification, common root, at least one; v2 root/items/offset provenance; leaf identifier covers all fields with injective text templates; stake leaf template; message recomputation from verified values; nested map proof rules',
+         'Verified* values only from verify(); per-set-proof verification, common root, at least one; v2 root/items/offset provenance; leaf identifier covers all fields with injective text templates; stake leaf template; every stake entry becomes a leaf; message recomputation from verified values; nested map proof rules',
          'hash-level injectivity; the aggregator prover'),
  'C12': ('static analysis: collection-type facts + comparison guards + provenance + effect-closure purity',
          'digests keyed by an ordered map feed the tree in key order; Ord(number, path); sorted listing; number <= beacon filter and beacon-exists guard; the listing is consumed only through the beacon filter (forward taint: files beyond the beacon decide nothing); digest per entry from its cache entry or its bytes; cache failures cannot change the result; no clock/RNG/hash-order dependence',
@@ -56,16 +56,16 @@ META = {
          'verify < insert < mark order; AlreadyCertified is raised only under the open message\'s own flag (the stored-but-unflagged window stays re-sealable); nothing persisted on the no-certificate return; artifact record fields from the inputs; artifact only with the sealed certificate; ReInit/KeepState mapping; entity lock released on every exit of the spawned task; the restart-time clean-up keeps the current epoch\'s open messages (SQL operator)',
          'what a restart finds after each cut; progress'),
  'C16': ('static analysis: effect ordering + provenance + influence-on-control + who-may-call',
-         'verify < store on an open non-expired message; stored = verified signature; key looked up by slot in the epoch registration; certificate signer filter; ingestion paths; DMQ sender pairing; party-label binding (known finding)',
+         'verify < store on an open non-expired message; stored = verified signature; key looked up by slot in the epoch registration; certificate signer filter; ingestion paths; DMQ sender pairing; party-label binding: the comparison of the slot key with the key registered by the claimed party gates success on every path',
          'storage-key semantics in SQL'),
  'C17': ('static analysis: effect-closure purity + who-may-construct + arithmetic-shape rules',
          'beacon function effect-free; block-number entity variants derived from a tip only there; shared formula with saturating subtraction and floored divisor (or checked division); operand roles incl. no dependence on another entity\'s signing configuration; all kinds handled',
          'the arithmetic claims (<= tip-k, monotone, multiples, range boundary)'),
  'C19': ('static analysis: effect ordering + who-may-construct + must-pass-through + provenance',
-         'ancillary: temp-dir unpack < verify < move, temp dir removed on every exit; ValidatedAncillaryManifest only from verify (data hashes, signature present, configured key); only listed files moved; immutable archives unpacked into the target (known finding)',
+         'ancillary: temp-dir unpack < verify < move, temp dir removed on every exit; ValidatedAncillaryManifest only from verify (data hashes, signature present, configured key); only listed files moved; immutable archives unpacked into the target (known finding); unexpected files removed on every exit once downloads started; the restoring side uses the path-confining tar API only; every manifest entry hashed and compared',
          'archive-parser behaviour; fault injection while moving files'),
  'C20': ('static analysis: provenance + effect ordering + who-may-call/construct + constant relations',
-         'offered beacons pass the already-signed filter; sign < publish < mark with errors propagated; signing only from ReadyToSign, entered after registration and can_sign; epoch change leaves it; offset algebra; offsets at the key-rotation sites; epoch roles (node vs aggregator epoch, registration vs aggregation configuration) of every input of the signer\'s epoch data',
+         'offered beacons pass the already-signed filter; sign < publish < mark with errors propagated; signing only from ReadyToSign, entered after registration and can_sign; epoch change leaves it; offset algebra; offsets at the key-rotation sites; epoch roles (node vs aggregator epoch, registration vs aggregation configuration) of every input of the signer\'s epoch data; next-epoch message parts read the next retrieval epoch; registration accepted before the keys are stored; the beacon is computed for the state machine\'s time point',
          'exactly-once under faults; acceptance by the aggregator'),
 }
 
